@@ -77,13 +77,13 @@ pub fn vf_flat_map_collect<'a, T: Queryable + 'a, G: Fn(Pointer<'a, T>) -> Vec<P
 // R5: X.iter().any(P) / X.iter().all(P)
 #[verifier::external_body]
 pub fn vf_iter_any<A, P: Fn(&A) -> bool>(x: &Vec<A>, p: P) -> (r: bool)
-    requires forall|a: &A| p.requires((a,)),
+    requires forall|i: int| 0 <= i < x@.len() ==> p.requires((&#[trigger] x@[i],)),
     ensures r ==> exists|i: int| 0 <= i < x@.len() && p.ensures((&#[trigger] x@[i],), true),
             !r ==> forall|i: int| 0 <= i < x@.len() ==> p.ensures((&#[trigger] x@[i],), false),
 { x.iter().any(p) }
 #[verifier::external_body]
 pub fn vf_iter_all<A, P: Fn(&A) -> bool>(x: &Vec<A>, p: P) -> (r: bool)
-    requires forall|a: &A| p.requires((a,)),
+    requires forall|i: int| 0 <= i < x@.len() ==> p.requires((&#[trigger] x@[i],)),
     ensures r ==> forall|i: int| 0 <= i < x@.len() ==> p.ensures((&#[trigger] x@[i],), true),
             !r ==> exists|i: int| 0 <= i < x@.len() && p.ensures((&#[trigger] x@[i],), false),
 { x.iter().all(p) }
@@ -113,4 +113,155 @@ impl<'s, T: Queryable> VfInto<T> for &'s str {
     open spec fn vf_into_spec(self) -> T { T::from_str_spec(self@) }
     #[verifier::external_body]
     fn vf_into(self) -> (r: T) { unimplemented!() }
+}
+
+// R4: X.into_iter().enumerate().filter(P).map(F).collect()   (X: &Vec<A>)
+// R4v: X.into_iter().filter(P).map(F).collect()              (X: Vec<A>)
+// assumed (primitive, relational): P is called once per element, in order; F is called on the kept
+// elements, in order; the result is the sequence of F's outputs.
+pub proof fn lemma_kept_bounds(n: int, keep: spec_fn(int) -> bool)
+    ensures
+        kept(n, keep).len() <= (if n > 0 { n } else { 0 }),
+        forall|j: int| 0 <= j < kept(n, keep).len() ==> 0 <= #[trigger] kept(n, keep)[j] < n && keep(kept(n, keep)[j]),
+    decreases n,
+{
+    if n > 0 { lemma_kept_bounds(n - 1, keep); }
+}
+pub proof fn lemma_kept_ext(n: int, k1: spec_fn(int) -> bool, k2: spec_fn(int) -> bool)
+    requires forall|i: int| 0 <= i < n ==> #[trigger] k1(i) == k2(i),
+    ensures kept(n, k1) == kept(n, k2),
+    decreases n,
+{
+    if n > 0 { lemma_kept_ext(n - 1, k1, k2); }
+}
+pub open spec fn efm_ok<'x, A, B, P: Fn(&(usize, &'x A)) -> bool, F: Fn((usize, &'x A)) -> B>(
+    p: P, f: F, x: &'x Vec<A>, bs: Seq<bool>, r: Seq<B>) -> bool {
+    let ks = kept(x@.len() as int, |i: int| 0 <= i < bs.len() && bs[i]);
+    bs.len() == x@.len()
+    && (forall|i: int| 0 <= i < x@.len() ==> p.ensures((&(i as usize, &x@[i]),), #[trigger] bs[i]))
+    && r.len() == ks.len()
+    && (forall|j: int| 0 <= j < r.len() ==> 0 <= ks[j] < x@.len() && f.ensures(((ks[j] as usize, &x@[ks[j]]),), #[trigger] r[j]))
+}
+#[verifier::external_body]
+pub fn vf_enumerate_filter_map_collect_raw<'x, A, B, P: Fn(&(usize, &'x A)) -> bool, F: Fn((usize, &'x A)) -> B>(x: &'x Vec<A>, p: P, f: F) -> (r: Vec<B>)
+    requires forall|a: &(usize, &'x A)| p.requires((a,)), forall|a: (usize, &'x A)| f.requires((a,)),
+    ensures exists|bs: Seq<bool>| efm_ok(p, f, x, bs, r@),
+{ x.into_iter().enumerate().filter(p).map(f).collect() }
+
+pub open spec fn fm_ok<A, B, P: Fn(&A) -> bool, F: Fn(A) -> B>(p: P, f: F, x: Seq<A>, bs: Seq<bool>, r: Seq<B>) -> bool {
+    let ks = kept(x.len() as int, |i: int| 0 <= i < bs.len() && bs[i]);
+    bs.len() == x.len()
+    && (forall|i: int| 0 <= i < x.len() ==> p.ensures((&x[i],), #[trigger] bs[i]))
+    && r.len() == ks.len()
+    && (forall|j: int| 0 <= j < r.len() ==> 0 <= ks[j] < x.len() && f.ensures((x[ks[j]],), #[trigger] r[j]))
+}
+#[verifier::external_body]
+pub fn vf_filter_map_collect_raw<A, B, P: Fn(&A) -> bool, F: Fn(A) -> B>(x: Vec<A>, p: P, f: F) -> (r: Vec<B>)
+    requires forall|a: &A| p.requires((a,)), forall|a: A| f.requires((a,)),
+    ensures exists|bs: Seq<bool>| fm_ok(p, f, x@, bs, r@),
+{ x.into_iter().filter(p).map(f).collect() }
+
+// proved wrappers (glue, not assumed): node-level functional form.  If P is pinned to `keep` and F is
+// pinned (as a node) to `out` on the actual elements, the result denotes kept(..).map(out).
+pub fn vf_enumerate_filter_map_collect<'x, 'a, T: Queryable + 'a, A, P: Fn(&(usize, &'x A)) -> bool, F: Fn((usize, &'x A)) -> Pointer<'a, T>>(
+    x: &'x Vec<A>, p: P, f: F) -> (r: Vec<Pointer<'a, T>>)
+    requires forall|a: &(usize, &'x A)| p.requires((a,)), forall|a: (usize, &'x A)| f.requires((a,)),
+    ensures forall|keep: spec_fn(int) -> bool, out: spec_fn(int) -> Node<'a, T>|
+        (forall|i: int, b: bool| 0 <= i < x@.len() && #[trigger] p.ensures((&(i as usize, &x@[i]),), b) ==> b == keep(i))
+        && (forall|i: int, o: Pointer<'a, T>| 0 <= i < x@.len() && #[trigger] f.ensures(((i as usize, &x@[i]),), o) ==> nd(o) == out(i))
+        ==> nds(r@) == #[trigger] kept(x@.len() as int, keep).map_values(out),
+{
+    let ghost pp = p;
+    let ghost ff = f;
+    let r = vf_enumerate_filter_map_collect_raw(x, p, f);
+    proof {
+        let bs = choose|bs: Seq<bool>| efm_ok(pp, ff, x, bs, r@);
+        let kb = |i: int| 0 <= i < bs.len() && bs[i];
+        lemma_kept_bounds(x@.len() as int, kb);
+        assert forall|keep: spec_fn(int) -> bool, out: spec_fn(int) -> Node<'a, T>|
+            (forall|i: int, b: bool| 0 <= i < x@.len() && #[trigger] pp.ensures((&(i as usize, &x@[i]),), b) ==> b == keep(i))
+            && (forall|i: int, o: Pointer<'a, T>| 0 <= i < x@.len() && #[trigger] ff.ensures(((i as usize, &x@[i]),), o) ==> nd(o) == out(i))
+            implies nds(r@) == #[trigger] kept(x@.len() as int, keep).map_values(out) by {
+            assert forall|i: int| 0 <= i < x@.len() implies #[trigger] kb(i) == keep(i) by {
+                assert(pp.ensures((&(i as usize, &x@[i]),), bs[i]));
+            }
+            lemma_kept_ext(x@.len() as int, kb, keep);
+            let ks = kept(x@.len() as int, keep);
+            assert forall|j: int| 0 <= j < r@.len() implies nd(#[trigger] r@[j]) == out(ks[j]) by {
+                assert(ff.ensures(((ks[j] as usize, &x@[ks[j]]),), r@[j]));
+            }
+            assert(nds(r@) =~= ks.map_values(out));
+        }
+    }
+    r
+}
+pub fn vf_filter_map_collect<'a, T: Queryable + 'a, A, P: Fn(&A) -> bool, F: Fn(A) -> Pointer<'a, T>>(
+    x: Vec<A>, p: P, f: F) -> (r: Vec<Pointer<'a, T>>)
+    requires forall|a: &A| p.requires((a,)), forall|a: A| f.requires((a,)),
+    ensures forall|keep: spec_fn(int) -> bool, out: spec_fn(int) -> Node<'a, T>|
+        (forall|i: int, b: bool| 0 <= i < x@.len() && #[trigger] p.ensures((&x@[i],), b) ==> b == keep(i))
+        && (forall|i: int, o: Pointer<'a, T>| 0 <= i < x@.len() && #[trigger] f.ensures((x@[i],), o) ==> nd(o) == out(i))
+        ==> nds(r@) == #[trigger] kept(x@.len() as int, keep).map_values(out),
+{
+    let ghost pp = p;
+    let ghost ff = f;
+    let ghost xs = x@;
+    let r = vf_filter_map_collect_raw(x, p, f);
+    proof {
+        let bs = choose|bs: Seq<bool>| fm_ok(pp, ff, xs, bs, r@);
+        let kb = |i: int| 0 <= i < bs.len() && bs[i];
+        lemma_kept_bounds(xs.len() as int, kb);
+        assert forall|keep: spec_fn(int) -> bool, out: spec_fn(int) -> Node<'a, T>|
+            (forall|i: int, b: bool| 0 <= i < xs.len() && #[trigger] pp.ensures((&xs[i],), b) ==> b == keep(i))
+            && (forall|i: int, o: Pointer<'a, T>| 0 <= i < xs.len() && #[trigger] ff.ensures((xs[i],), o) ==> nd(o) == out(i))
+            implies nds(r@) == #[trigger] kept(xs.len() as int, keep).map_values(out) by {
+            assert forall|i: int| 0 <= i < xs.len() implies #[trigger] kb(i) == keep(i) by {
+                assert(pp.ensures((&xs[i],), bs[i]));
+            }
+            lemma_kept_ext(xs.len() as int, kb, keep);
+            let ks = kept(xs.len() as int, keep);
+            assert forall|j: int| 0 <= j < r@.len() implies nd(#[trigger] r@[j]) == out(ks[j]) by {
+                assert(ff.ensures((xs[ks[j]],), r@[j]));
+            }
+            assert(nds(r@) =~= ks.map_values(out));
+        }
+    }
+    r
+}
+
+// R6: X.iter().fold(init, F) — assumed (primitive, relational): F is applied left to right
+pub open spec fn fold_rel<A, B, F: Fn(B, &A) -> B>(f: F, xs: Seq<A>, init: B, r: B) -> bool
+    decreases xs.len()
+{
+    if xs.len() == 0 { r == init }
+    else { exists|mid: B| fold_rel(f, xs.drop_last(), init, mid) && #[trigger] f.ensures((mid, &xs.last()), r) }
+}
+pub open spec fn fold_pre<A, B, F: Fn(B, &A) -> B>(f: F, xs: Seq<A>) -> bool {
+    forall|b: B, i: int| 0 <= i < xs.len() ==> f.requires((b, &#[trigger] xs[i]))
+}
+#[verifier::external_body]
+pub fn vf_iter_fold<A, B, F: Fn(B, &A) -> B>(x: &Vec<A>, init: B, f: F) -> (r: B)
+    requires fold_pre(f, x@),
+    ensures fold_rel(f, x@, init, r),
+{ x.iter().fold(init, f) }
+
+// str::chars().count(): number of Unicode scalar values (assumed: std's documented meaning; the view of a
+// str in Verus is its sequence of chars)
+#[verifier::external_body]
+pub fn vf_chars_count(s: &str) -> (n: usize)
+    ensures n == s@.len(),
+{ s.chars().count() }
+
+// E6: From<Pointer> for QueryRef (its body is a proved unit, QueryRef::from_pointer; that `Into::into`
+// dispatches to it is std's blanket impl) and From<T> for JsonPathError (format!: opaque)
+impl<'a, T: Queryable> VfInto<QueryRef<'a, T>> for Pointer<'a, T> {
+    open spec fn vf_into_spec(self) -> QueryRef<'a, T> { QueryRef(self.inner, self.path) }
+    #[verifier::external_body]
+    fn vf_into(self) -> (r: QueryRef<'a, T>) { unimplemented!() }
+}
+pub uninterp spec fn error_of<T: Queryable>(v: T) -> JsonPathError;
+impl<T: Queryable> VfInto<JsonPathError> for T {
+    open spec fn vf_into_spec(self) -> JsonPathError { error_of(self) }
+    #[verifier::external_body]
+    fn vf_into(self) -> (r: JsonPathError) { unimplemented!() }
 }
